@@ -68,7 +68,8 @@ def generate(rng, tier):
         func = rng.choice(["div", "div", "diff", "interp"])
         cases.append({"dec": dec, "U": U, "V": V, "extra": extra, "func": func, "axis": rng.choice(["X", "Y"]),
                       "rule": rng.choice(["extend", "fill"]), "fill": rng.choice([0, 4, -3]),
-                      "face_pos": rng.randrange(3 + (1 if extra else 0))})
+                      "face_pos": rng.randrange(3 + (1 if extra else 0)),
+                      "seed_listing": rng.randrange(10 ** 6) if rng.random() < 0.6 else None})
     return cases
 
 
@@ -109,8 +110,12 @@ def run_impl(case):
                 v[f, j, i] = phi(d, U, V, atlas.chart_apply(c, (i, j - 1)), C0)
     ds = xr.Dataset(coords={"face": np.arange(nf), "xc": np.arange(N), "xg": np.arange(N),
                             "yc": np.arange(N), "yg": np.arange(N)})
+    listed = list(d["conn"])
+    if case.get("seed_listing") is not None:
+        import random as _r
+        _r.Random(case["seed_listing"]).shuffle(listed)
     fc = {"face": {f: {a: (tuple(l) if l else None, tuple(r) if r else None) for a, (l, r) in fal}
-                   for f, fal in d["conn"]}}
+                   for f, fal in listed}}
     try:
         g = Grid(ds, coords={"X": {"center": "xc", "left": "xg"}, "Y": {"center": "yc", "left": "yg"}},
                  face_connections=fc, periodic=False, autoparse_metadata=False)
